@@ -27,17 +27,27 @@ package loadaware
 //@   modifies nothing
 //@   loop 1 invariant forall n corev1.ResourceName :: $seen[n] ==> has(thresholds, n) && !overAt(usage, thresholds, n)
 
-// evictPods: every Evict call is for the pod of the current iteration, never in dry-run mode, at most
-// one per input pod. continueEviction / podFilter / evictionReasonGenerator are function-typed
-// parameters: the engine havocs calls through them and gives no handle on their results.
+// evictPods. C = calls("continueEviction"), F = calls("podFilter"), E = calls("Evict"). The callbacks are
+// consulted as observers (they do not write the usage / headroom estimates). At the head of iteration i
+// C == F == i: every earlier iteration asked continueEviction, got true (otherwise the function has
+// returned) and then asked podFilter. Evict(pod) is issued only after both were asked for the pod of
+// this iteration (C == F, and the filter was asked about exactly this pod), never in dry-run mode, at
+// most once per pod; continueEviction is never asked again after it returned false (#stopfirst).
+// Not expressible: that podFilter's answer was *true* (a callback result cannot be named later).
 //@ func evictPods [C18]
+//@   option observers continueEviction podFilter evictionReasonGenerator
+//@   assert before call continueEviction: #stopfirst: calls("continueEviction") == calls("podFilter") + 1 && $arg0.NodeUsage == nodeInfo.NodeUsage && $arg1 == totalAvailableUsages && $arg2 == prod
+//@   assert before call podFilter: #askthis: $arg0 == pod && calls("podFilter") == calls("continueEviction")
 //@   assert before call Evict: #live: !dryRun
 //@   assert before call Evict: #thispod: $arg1 == pod
+//@   assert before call Evict: #asked: calls("continueEviction") == calls("podFilter") && calls("Evict") <= calls("podFilter")
 //@   assert before call Add: #onlydecrease: false
 //@   assert before call Sub: #estimate: podMetric != nil && (exists n corev1.ResourceName :: has(totalAvailableUsages, n) && availableUsage == totalAvailableUsages[n] && $arg0 == (n == corev1.ResourcePods ? 1 : val(podMetric.ResourceList, n)) && ($recv == availableUsage || $recv == nodeInfo.NodeUsage.usage[n] || (prod && $recv == nodeInfo.NodeUsage.prodUsage[n])))
-// (dry-run => no Evict call, and at most one Evict per input pod, are carried by #live and by the loop
-// invariant; as ensures clauses their calls("Evict") term would break the caller balancePods.)
+//@   ensures #dryrun: dryRun ==> calls("Evict") == 0
+//@   ensures #atmost: calls("Evict") <= calls("podFilter") && calls("podFilter") <= calls("continueEviction") && calls("continueEviction") <= len(inputPods)
+//@   ensures #stopped: calls("continueEviction") == calls("podFilter") || calls("continueEviction") == calls("podFilter") + 1
 //@   loop 1 invariant 0 <= $i && $i <= len(inputPods)
+//@   loop 1 invariant #lockstep: calls("continueEviction") == $i && calls("podFilter") == $i
 //@   loop 1 invariant calls("Evict") <= $i && (dryRun ==> calls("Evict") == 0)
 
 //@ spec func anyOver(usage map[corev1.ResourceName]*resource.Quantity, th map[corev1.ResourceName]*resource.Quantity) bool = exists n corev1.ResourceName :: overAt(usage, th, n)
@@ -63,20 +73,41 @@ package loadaware
 //@   ensures #iff: result <==> anyOver(usage.prodUsage, threshold.prodHighResourceThreshold)
 //@   modifies nothing
 
-// classifyNodes: the filters are function-typed parameters (calls havocked). What remains checkable is
-// exclusivity by counting: every loop iteration (= one node; counted by its single klog InfoS call)
-// appends to at most one of the five lists. Stated as a loop invariant only: a calls("...") term in an
-// ensures clause makes every caller under contract fail with "counter not registered".
+// classifyNodes: the four predicates are consulted as observers. Every node (= loop iteration, $n) is
+// asked lowThresholdFilter exactly once, every consult is about the current node and its thresholds,
+// a node is appended to at most one of the five lists, and a list only grows after its predicate was
+// consulted (high: highThresholdFilter; prodHigh: prodHighThresholdFilter; low / prodLow / bothLow:
+// prodLowThresholdFilter, itself only after prodHighThresholdFilter). The truth of the answers cannot
+// be named; the predicates themselves are specified above.
 //@ func classifyNodes [C18]
-//@   loop 1 invariant len(lowNodes) + len(highNodes) + len(prodLowNodes) + len(prodHighNodes) + len(bothLowNodes) <= calls("InfoS")
+//@   option observers lowThresholdFilter highThresholdFilter prodLowThresholdFilter prodHighThresholdFilter
+//@   assert before call lowThresholdFilter: #cur: $arg0 == nodeUsage
+//@   assert before call highThresholdFilter: #cur: $arg0 == nodeUsage
+//@   assert before call prodLowThresholdFilter: #cur: $arg0 == nodeUsage
+//@   assert before call prodHighThresholdFilter: #cur: $arg0 == nodeUsage
+//@   ensures #atmostone: len(lowNodes) + len(highNodes) + len(prodLowNodes) + len(prodHighNodes) + len(bothLowNodes) <= calls("lowThresholdFilter")
+//@   ensures #consulted: len(highNodes) <= calls("highThresholdFilter") && len(prodHighNodes) <= calls("prodHighThresholdFilter") && len(lowNodes) + len(prodLowNodes) + len(bothLowNodes) <= calls("prodLowThresholdFilter") && calls("prodLowThresholdFilter") <= calls("prodHighThresholdFilter")
+//@   loop 1 invariant #once: calls("lowThresholdFilter") == $n
+//@   loop 1 invariant #atmostone: len(lowNodes) + len(highNodes) + len(prodLowNodes) + len(prodHighNodes) + len(bothLowNodes) <= $n
+//@   loop 1 invariant #consulted: len(highNodes) <= calls("highThresholdFilter") && len(prodHighNodes) <= calls("prodHighThresholdFilter") && len(lowNodes) + len(prodLowNodes) + len(bothLowNodes) <= calls("prodLowThresholdFilter") && calls("prodLowThresholdFilter") <= calls("prodHighThresholdFilter")
+//@   loop 1 invariant calls("highThresholdFilter") <= $n && calls("prodHighThresholdFilter") <= $n
 //@   loop 1 invariant len(lowNodes) >= 0 && len(highNodes) >= 0 && len(prodLowNodes) >= 0 && len(prodHighNodes) >= 0 && len(bothLowNodes) >= 0
+
+// filterNodes: without a node selector the pool is the whole node list; otherwise a sub-list (no
+// processed node, only matching nodes).
+//@ func filterNodes [C18]
+//@   ensures #nosel: nodeSelector == nil ==> result0 == nodes && result1 == nil
+//@   ensures #err: result1 != nil ==> len(result0) == 0
+//@   ensures #subset: len(result0) <= len(nodes)
+//@   modifies inferred
+//@   loop 1 invariant 0 <= $i && $i <= len(nodes) && len(r) <= $i && fresh(arr(r))
 
 // processOneNodePool: the eviction pass is reached only when some node is overloaded (and confirmed
 // abnormal), some node is underused, more than NumberOfNodes nodes are underused, and not all nodes
 // are underused. The full gate is asserted at the first statement after the early exits
 // (sortNodesByUsage#1; straight-line code leads from there to evictPodsFromSourceNodes) because the
-// calls in between forget pl.args. #notall (all-underused gate; `nodes` can only be named by its entry
-// value, hence the NodeSelector == nil guard) is solver-unstable: discharged by one engine build, timeout with the next.
+// calls in between forget pl.args. In call-site clauses `nodes` is the entry value, hence the
+// NodeSelector == nil guard (filterNodes#nosel) on #notall / #somenodes.
 //@ func (*LowNodeLoad).processOneNodePool [C18]
 //@   requires pl != nil && pl.args != nil && nodePool != nil
 //@   assert before call sortNodesByUsage#1: #overloaded: (len(sourceNodes) > 0 || len(prodHighNodes) > 0) && (len(abnormalNodes) > 0 || len(abnormalProdNodes) > 0)
@@ -84,6 +115,7 @@ package loadaware
 //@   assert before call sortNodesByUsage#1: #enough: allLowNodes > int(pl.args.NumberOfNodes)
 //@   assert before call evictPodsFromSourceNodes: #gated: calls("sortNodesByUsage") == 2 && (len(sourceNodes) > 0 || len(prodHighNodes) > 0) && (len(abnormalNodes) > 0 || len(abnormalProdNodes) > 0) && (len(lowNodes) > 0 || len(prodLowNodes) > 0 || len(bothLowNodes) > 0)
 //@   assert before call evictPodsFromSourceNodes: #notall: old(nodePool.NodeSelector) == nil ==> len(lowNodes) + len(prodLowNodes) + len(bothLowNodes) != len(nodes)
+//@   assert before call evictPodsFromSourceNodes: #somenodes: old(nodePool.NodeSelector) == nil ==> len(nodes) > 0
 //@   assert before call evictPodsFromSourceNodes: #lists: $arg2 == abnormalNodes && $arg3 == lowNodes && $arg4 == abnormalProdNodes && $arg5 == prodLowNodes && $arg6 == bothLowNodes
 //@   ensures #once: calls("evictPodsFromSourceNodes") <= 1
 
